@@ -656,6 +656,8 @@ def r07i(ctx, run):
         "struct{z: %s, a: i32, b: i32}": lambda k: V("Ty::ConcreteStruct", {"uid": 11, "members": [mem("z", k), mem("a", i32), mem("b", i32)]}),
         "struct{a: i32, z: %s, b: i32}": lambda k: V("Ty::ConcreteStruct", {"uid": 12, "members": [mem("a", i32), mem("z", k), mem("b", i32)]}),
         "enum{A: %s}": lambda k: V("Ty::Enum", {"uid": 9, "variants": [V("Ty::EnumVariant", {"enum_uid": 9, "variant_name": Term("A"), "uid": 10, "sub_ty": k, "discriminant": 0})]}),
+        # `==` on pointers compares what they point at
+        "^%s": lambda k: V("Ty::Pointer", {"mutable": False, "sub_ty": k}),
     }
     cc = fc["compile_complex_compare"]
     n = 0
